@@ -400,6 +400,21 @@ class CheckedCoverageInstrumentation(python3_11.CheckedCoverageInstrumentation):
         instr_index: int,
         instr_original_index: int,
     ) -> None:
+        # A local saved by an inlined comprehension (PEP 709) may be unbound both when it is
+        # saved (LOAD_FAST_AND_CLEAR) and when it is restored (STORE_FAST); loading it for the
+        # tracer would push NULL and crash the interpreter.
+        saved_by_comprehension = {
+            i.arg
+            for block in cfg.bytecode_cfg
+            for i in block
+            if isinstance(i, Instr) and i.name == "LOAD_FAST_AND_CLEAR"
+        }
+        value: InstrumentationArgument = (
+            InstrumentationConstantLoad(value=None)
+            if instr.name == "LOAD_FAST_AND_CLEAR"
+            or (instr.name == "STORE_FAST" and instr.arg in saved_by_comprehension)
+            else InstrumentationFastLoad(name=instr.arg)  # type: ignore[arg-type]
+        )
         instructions = self.instructions_generator.generate_instructions(
             InstrumentationSetupAction.NO_ACTION,
             InstrumentationMethodCall(
@@ -413,7 +428,7 @@ class CheckedCoverageInstrumentation(python3_11.CheckedCoverageInstrumentation):
                     InstrumentationConstantLoad(value=instr.lineno),
                     InstrumentationConstantLoad(value=instr_original_index),
                     InstrumentationConstantLoad(value=instr.arg),  # type: ignore[arg-type]
-                    InstrumentationFastLoad(name=instr.arg),  # type: ignore[arg-type]
+                    value,
                 ),
             ),
             instr.lineno,
